@@ -49,6 +49,9 @@ def gen(rng, tier):
             f, t, o = FIXED[i]
             for seq in itertools.product(OPS, repeat=5):
                 cases.append({"f": f, "t": t, "opts": o, "ops": list(seq), "color": False})
+    for f, t in T.COLLUB_FORCED[:1]:        # defect `coll-ub` (D24): few cases, keys `coll-ub:<symptom>`
+        for seq in ([], ["bounds", "tighten", "bounds"], ["edits", "tighten"], ["render"]):
+            cases.append({"f": f, "t": t, "opts": T.COLLUB_OPTS, "ops": seq, "color": False})
     n = 700 if tier == "quick" else 9000
     for k in range(n):
         a = S.gen_doc(rng)
@@ -229,6 +232,8 @@ def to_model(case, obs):
         return None
     if not in_model_domain(case):
         return None
+    if T.outside_fk_domain(case) and "∞" in json.dumps(obs, ensure_ascii=False):
+        return None     # defect `coll-ub`: the collection invalidated itself (the model stops at that point); monitor reports it
     o = case.get("opts", {})
     return {"s": "lazy", "f": S.enc(case["f"]), "t": S.enc(case["t"]),
             "ake": o.get("allow_key_edits", True), "amk": o.get("auto_match_keys", True),
@@ -260,6 +265,8 @@ def expect(case, obs):
 def monitor(case, obs):
     out = []
     dup = "dup-multiset:" if case.get("api") and (T.has_dup_mset(case["f"]) or T.has_dup_mset(case["t"])) else ""
+    if T.outside_fk_domain(case):
+        dup = "coll-ub:"
 
     def hit(key, what):
         out.append({"prop": "C05", "key": dup + key, "what": what})
